@@ -79,6 +79,8 @@ Proof.
   - destruct H; [congruence|auto].
   - destruct H; [left; auto|right; auto].
 Qed.
+Lemma remove_nth_beyond {A} (l : list A) : forall i, (length l <= i)%nat -> remove_nth i l = l.
+Proof. induction l; intros i H; destruct i; simpl in *; auto; try lia. f_equal. apply IHl. lia. Qed.
 Lemma remove_nth_In {A} (x y : A) i l : In x l -> nth_error l i = Some y -> x <> y -> In x (remove_nth i l).
 Proof.
   revert i. induction l; intros i H Hn Hxy; [destruct i; simpl in *; auto|].
@@ -501,6 +503,8 @@ Proof.
     + intros k Hk. rewrite upd_other; auto.
     + rewrite upd_same. reflexivity.
     + apply good_all; auto.
+  - discriminate.
+  - discriminate.
 Qed.
 
 Lemma good_emit_except C p ev (procs : nat -> proc) :
@@ -587,6 +591,8 @@ Proof.
   - destruct (j_ph (s_jobs s j)) eqn:P; try discriminate. open_guard H.
     inversion H; subst; clear H. simpl. unfold upd. destruct (Nat.eqb_spec j0 j); subst; auto.
     do 5 right. simpl. auto.
+  - discriminate.
+  - discriminate.
 Qed.
 
 (* ====== part B: capacity *)
@@ -697,6 +703,8 @@ Proof.
     + rewrite (held_sum_same C s); auto.
   - destruct (j_ph (s_jobs s j)); try discriminate. open_guard H.
     inversion H; subst. rewrite (held_sum_same C s); auto.
+  - discriminate.
+  - discriminate.
 Qed.
 
 Lemma cap_silent C s p n s' r :
@@ -836,22 +844,7 @@ Proof.
   apply (cap_core V C _ l s' r NN (invA_pre V C s l I) (cap_pre V C s l NN Hc) H).
 Qed.
 
-(* ---- the same for `step` *)
-Lemma step_cases V C s l s' r :
-  step V C s l = Some (s', r) ->
-  step1 V C s l = Some (s', r) \/
-  exists p n s1, l = StartRace p n /\
-     ((v_watch V = true /\ ghost_delete C (sweep V C s fresh_proc) n = Some s1 /\ step1 V C s1 (Start p) = Some (s', r)) \/
-      (v_watch V = false /\ (exists r1, step1 V C s (Start p) = Some (s1, r1)) /\ silent_fire C s1 p n = Some (s', r))).
-Proof.
-  intros H. destruct l; try (left; exact H). right. unfold step in H.
-  destruct (v_watch V) eqn:W.
-  - change (mkProc true 0 (fun _ => None) true [] []) with fresh_proc in H.
-    destruct (ghost_delete C (sweep V C s fresh_proc) n) as [s1|] eqn:E; try discriminate. exists p, n, s1. split; auto.
-  - destruct (step1 V C s (Start p)) as [[s1 r1]|] eqn:E; try discriminate.
-    exists p, n, s1. split; auto. right. split; auto. split; eauto.
-Qed.
-
+(* ---- `step`: every label is a finite sequence of micro moves *)
 Lemma ghost_jobs C s n s1 : ghost_delete C s n = Some s1 -> s_jobs s1 = s_jobs s /\ s_lock s1 = s_lock s.
 Proof. unfold ghost_delete. destruct (_ && _); intros H; inversion H; subst; auto. Qed.
 
@@ -878,36 +871,144 @@ Proof.
   - intros k Hk. apply upd_other; auto.
 Qed.
 
-Lemma invAL_step V C s l s' r : v_fire V = true -> InvA C s /\ InvL s -> step V C s l = Some (s', r) -> InvA C s' /\ InvL s'.
+
+Lemma invA_resync V C s p s' r : InvA C s -> resync V C s p = Some (s', r) -> InvA C s'.
 Proof.
-  intros VFI [I L] H. apply step_cases in H. destruct H as [H|[p [n [s1 [_ [[_ [H1 H2]]|[_ [[r1 H1] H2]]]]]]]].
-  - split; [apply (invA_step1 V C s l s' r VFI L I H)|apply (invL_step1 V C s l s' r I L H)].
-  - assert (I0 : InvA C (sweep V C s fresh_proc)) by (apply invA_sweep; auto).
-    assert (L0 : InvL (sweep V C s fresh_proc)) by (apply (invL_same_jobs s); auto; apply sweep_jobs).
-    assert (I1 : InvA C s1) by (apply (invA_ghost C _ n s1 L0 I0 H1)).
-    assert (L1 : InvL s1) by (apply (invL_same_jobs _ s1 L0); apply (ghost_jobs C _ n s1 H1)).
-    split; [apply (invA_step1 V C s1 _ s' r VFI L1 I1 H2)|apply (invL_step1 V C s1 _ s' r I1 L1 H2)].
-  - assert (I1 : InvA C s1) by (apply (invA_step1 V C s _ s1 r1 VFI L I H1)).
-    assert (L1 : InvL s1) by (apply (invL_step1 V C s _ s1 r1 I L H1)).
-    split; [eapply invA_silent; eauto|].
-    apply (invL_same_jobs s1 s' L1). apply (silent_jobs C s1 p n s' r H2).
+  intros I H. unfold resync in H.
+  assert (I0 := invA_sweep V C s (s_procs s p) I). set (s0 := sweep V C s (s_procs s p)) in *.
+  open_guard H. split_and G. inversion H; subst; clear H.
+  apply (invA_same C s0); auto; simpl.
+  - intros j. match goal with |- context[if ?b then _ else _] => destruct b end; reflexivity.
+  - apply good_upd; [apply good_all; auto|]. apply recount_good; auto. apply good_all; auto.
+Qed.
+Lemma resync_jobs V C s p s' r j :
+  resync V C s p = Some (s', r) ->
+  j_ph (s_jobs s' j) = j_ph (s_jobs s j) /\ j_lock (s_jobs s' j) = j_lock (s_jobs s j) /\ j_pid (s_jobs s' j) = j_pid (s_jobs s j) /\
+  j_orph (s_jobs s' j) = j_orph (s_jobs s j).
+Proof.
+  intros H. unfold resync in H. open_guard H. inversion H; subst; clear H. simpl. rewrite sweep_jobs.
+  match goal with |- context[if ?b then _ else _] => destruct b end; simpl; auto.
+Qed.
+Lemma resync_disk V C s p s' r : resync V C s p = Some (s', r) -> s_disk s' = s_disk (sweep V C s (s_procs s p)).
+Proof. intros H. unfold resync in H. open_guard H. inversion H; subst; reflexivity. Qed.
+
+(* deleted_locked: either a plain delivery, or only the queue of p and the status of jobs change *)
+Lemma dlock_cases V C s p i s' r :
+  deleted_locked V C s p i = Some (s', r) ->
+  core V C s (Deliver p i) = Some (s', r) \/
+  (p_alive (s_procs s p) = true /\
+   s' = mkS (s_lock s) (s_disk s)
+          (upd (s_procs s) p (mkProc (p_alive (s_procs s p)) (p_avail (s_procs s p)) (p_cache (s_procs s p)) (p_obs (s_procs s p))
+                                     (remove_nth i (p_evq (s_procs s p))) (p_wat (s_procs s p))))
+          (notify C p (p_avail (s_procs s p)) (s_jobs s)) /\
+   forall k, EDeleted k = nth i (p_evq (s_procs s p)) (ECreated 0) -> p_cache (s_procs s p) k = None).
+Proof.
+  intros H. unfold deleted_locked in H. open_guard H. split_and G.
+  destruct (nth_error (p_evq (s_procs s p)) i) as [[ | |n]|] eqn:NTH; try discriminate.
+  destruct (p_cache (s_procs s p) n) eqn:PC; [left; exact H|right].
+  inversion H; subst; clear H. split; auto. split; auto.
+  intros k Hk. rewrite (nth_error_nth _ _ _ NTH) in Hk. inversion Hk; subst. auto.
 Qed.
 
+Inductive micro (V : variant) (C : cfg) : state -> state -> Prop :=
+| m_dlock : forall s p i s' r, deleted_locked V C s p i = Some (s', r) -> micro V C s s'
+| m_core : forall s l s' r, core V C s l = Some (s', r) -> micro V C s s'
+| m_sweep : forall s pr, micro V C s (sweep V C s pr)
+| m_ghost : forall s n s', ghost_delete C s n = Some s' -> micro V C s s'
+| m_silent : forall s p n s' r, v_watch V = false -> silent_fire C s p n = Some (s', r) -> micro V C s s'
+| m_resync : forall s p s' r, resync V C s p = Some (s', r) -> micro V C s s'.
+Inductive micros (V : variant) (C : cfg) : state -> state -> Prop :=
+| ms_nil : forall s, micros V C s s
+| ms_cons : forall s s1 s2, micro V C s s1 -> micros V C s1 s2 -> micros V C s s2.
+Lemma micros_app V C s1 s2 s3 : micros V C s1 s2 -> micros V C s2 s3 -> micros V C s1 s3.
+Proof. induction 1; auto. intros. eapply ms_cons; eauto. Qed.
+Lemma micros_one V C s s' : micro V C s s' -> micros V C s s'.
+Proof. intros. eapply ms_cons; eauto. apply ms_nil. Qed.
+
+Lemma step1_micros V C s l s' r : step1 V C s l = Some (s', r) -> micros V C s s'.
+Proof.
+  intros H. rewrite step1_pre in H. destruct (pre_cases V C s l) as [E|[pr E]]; rewrite E in H.
+  - apply micros_one. eapply m_core; eauto.
+  - eapply ms_cons; [apply (m_sweep V C s pr)|]. apply micros_one. eapply m_core; eauto.
+Qed.
+Lemma finish_write_micros V C s : micros V C s (finish_write V C s).
+Proof.
+  unfold finish_write. destruct (s_lock s) as [j|]; [|apply ms_nil].
+  destruct (core V C s (WriteF j)) as [[s' r]|] eqn:E; [|apply ms_nil]. apply micros_one. eapply m_core; eauto.
+Qed.
+
+Lemma step_micros V C s l s' r : step V C s l = Some (s', r) -> micros V C s s'.
+Proof.
+  intros H. destruct l; try (apply (step1_micros V C s _ s' r H)); unfold step in H.
+  - (* StartRace *)
+    destruct (v_watch V) eqn:W.
+    + change (mkProc true 0 (fun _ => None) true [] []) with fresh_proc in H.
+      destruct (ghost_delete C (sweep V C s fresh_proc) n) as [s1|] eqn:E; try discriminate.
+      eapply ms_cons; [apply (m_sweep V C s fresh_proc)|]. eapply ms_cons; [eapply m_ghost; eauto|].
+      apply (step1_micros V C s1 _ s' r H).
+    + destruct (step1 V C s (Start p)) as [[s1 r1]|] eqn:E; try discriminate.
+      eapply micros_app; [apply (step1_micros V C s _ s1 r1 E)|]. apply micros_one. eapply m_silent; eauto.
+  - (* StartMid *)
+    destruct (Nat.eqb q p); try discriminate.
+    destruct (step1 V C s (Start p)) as [[s1 [| |]]|] eqn:E1; try discriminate.
+    destruct (step1 V C s1 (Acquire q j)) as [[s2 r2]|] eqn:E2; try discriminate.
+    eapply micros_app; [apply (step1_micros V C s _ s1 _ E1)|].
+    eapply micros_app; [apply (step1_micros V C s1 _ s2 _ E2)|].
+    eapply micros_app; [apply finish_write_micros|].
+    destruct (v_watch V); [apply micros_one; eapply m_resync; eauto|inversion H; subst; apply ms_nil].
+  - (* DeliverRace *)
+    destruct (_ && _ && _); try discriminate. destruct (nth_error _ i) as [[ | |n]|]; try discriminate.
+    destruct (p_cache _ n); try discriminate.
+    destruct (step1 V C s (if rel then Release p j else Acquire p j)) as [[s1 r1]|] eqn:E1; try discriminate.
+    eapply micros_app; [apply (step1_micros V C s _ s1 _ E1)|].
+    eapply micros_app; [apply finish_write_micros|]. apply micros_one. eapply m_dlock; eauto.
+Qed.
+
+Lemma invAL_micro V C s s' : v_fire V = true -> micro V C s s' -> InvA C s /\ InvL s -> InvA C s' /\ InvL s'.
+Proof.
+  intros VFI M [I L]. destruct M.
+  - destruct (dlock_cases V C s p i s' r H) as [H'|[A [-> _]]].
+    + split; [apply (invA_core V C s _ s' r VFI L I H')|apply (invL_core V C s _ s' r I L H')].
+    + split.
+      * apply (invA_same C s); auto; simpl; [intros j; apply notify_ph|].
+        apply good_upd; [apply good_all; auto|]. intros k c Hc. apply (good_all C s I p k c Hc).
+      * constructor; simpl; intros j0; rewrite notify_ph, ?notify_lock, ?notify_pid; [apply (l_locked _ L)|apply (l_unlocked _ L)|apply (l_pid _ L)].
+  - split; [apply (invA_core V C s l s' r VFI L I H)|apply (invL_core V C s l s' r I L H)].
+  - split; [apply invA_sweep; auto|apply (invL_same_jobs s); auto; apply sweep_jobs].
+  - split; [apply (invA_ghost C s n s' L I H)|apply (invL_same_jobs s s' L); apply (ghost_jobs C s n s' H)].
+  - split; [eapply invA_silent; eauto|apply (invL_same_jobs s s' L); apply (silent_jobs C s p n s' r H0)].
+  - split; [eapply invA_resync; eauto|].
+    constructor; intros j0; destruct (resync_jobs V C s p s' r j0 H) as [E1 [E2 [E3 _]]]; rewrite E1, ?E2, ?E3;
+      [apply (l_locked _ L)|apply (l_unlocked _ L)|apply (l_pid _ L)].
+Qed.
+Lemma invAL_micros V C s s' : v_fire V = true -> micros V C s s' -> InvA C s /\ InvL s -> InvA C s' /\ InvL s'.
+Proof. intros VFI M. induction M; auto. intros X. apply IHM. eapply invAL_micro; eauto. Qed.
+
+Lemma invAL_step V C s l s' r : v_fire V = true -> InvA C s /\ InvL s -> step V C s l = Some (s', r) -> InvA C s' /\ InvL s'.
+Proof. intros VFI X H. apply (invAL_micros V C s s' VFI (step_micros V C s l s' r H) X). Qed.
+
+Lemma cap_micro V C s s' :
+  v_fire V = true -> cnt_nonneg C -> micro V C s s' -> InvA C s -> held_sum C s <= c_total C -> held_sum C s' <= c_total C.
+Proof.
+  intros VFI NN M I Hc. destruct M.
+  - destruct (dlock_cases V C s p i s' r H) as [H'|[A [-> _]]]; [eapply cap_core; eauto|].
+    rewrite (held_sum_same C s); auto.
+  - eapply cap_core; eauto.
+  - assert (X := cap_sweep V C s pr NN). lia.
+  - eapply cap_ghost; eauto.
+  - eapply cap_silent; eauto.
+  - rewrite (held_sum_same C (sweep V C s (s_procs s p))); [|eapply resync_disk; eauto].
+    assert (X := cap_sweep V C s (s_procs s p) NN). lia.
+Qed.
+Lemma cap_micros V C s s' :
+  v_fire V = true -> cnt_nonneg C -> micros V C s s' -> InvA C s /\ InvL s -> held_sum C s <= c_total C -> held_sum C s' <= c_total C.
+Proof.
+  intros VFI NN M. induction M; auto. intros X Hc. apply IHM; [eapply invAL_micro; eauto|].
+  eapply cap_micro; eauto. apply X.
+Qed.
 Lemma cap_step V C s l s' r :
   v_fire V = true -> cnt_nonneg C -> InvA C s -> InvL s -> held_sum C s <= c_total C -> step V C s l = Some (s', r) -> held_sum C s' <= c_total C.
-Proof.
-  intros VFI NN I L Hc H. apply step_cases in H. destruct H as [H|[p [n [s1 [_ [[_ [H1 H2]]|[_ [[r1 H1] H2]]]]]]]].
-  - eapply cap_step1; eauto.
-  - assert (I0 : InvA C (sweep V C s fresh_proc)) by (apply invA_sweep; auto).
-    assert (L0 : InvL (sweep V C s fresh_proc)) by (apply (invL_same_jobs s); auto; apply sweep_jobs).
-    assert (C0 : held_sum C (sweep V C s fresh_proc) <= c_total C) by (assert (X := cap_sweep V C s fresh_proc NN); lia).
-    assert (I1 : InvA C s1) by (apply (invA_ghost C _ n s1 L0 I0 H1)).
-    assert (C1 : held_sum C s1 <= c_total C) by (apply (cap_ghost C _ n s1 NN I0 C0 H1)).
-    apply (cap_step1 V C s1 _ s' r NN I1 C1 H2).
-  - assert (I1 : InvA C s1) by (apply (invA_step1 V C s _ s1 r1 VFI L I H1)).
-    assert (C1 : held_sum C s1 <= c_total C) by (apply (cap_step1 V C s _ s1 r1 NN I Hc H1)).
-    apply (cap_silent C s1 p n s' r NN I1 C1 H2).
-Qed.
+Proof. intros VFI NN I L Hc H. apply (cap_micros V C s s' VFI NN (step_micros V C s l s' r H) (conj I L) Hc). Qed.
 
 (* ====== part C: the C09 invariant (repaired code): definitions and helpers *)
 Definition cnt_pos (C : cfg) : Prop := forall j, 1 <= c_cnt C j.
@@ -1566,6 +1667,8 @@ Proof.
   - discriminate.
   - simpl in H. discriminate.
   - eapply invB_resubmit; eauto.
+  - discriminate.
+  - discriminate.
 Qed.
 
 Lemma invB_step1 C s l s' r : cnt_pos C -> InvA C s -> InvB C s -> step1 VF C s l = Some (s', r) -> InvB C s'.
@@ -1574,19 +1677,98 @@ Proof.
   apply (invB_core C _ l s' r NP (invA_pre VF C s l I) (invB_pre C s l NP I B) H).
 Qed.
 
-Lemma invB_step C s l s' r : cnt_pos C -> InvA C s -> InvL s -> InvB C s -> step VF C s l = Some (s', r) -> InvB C s'.
+Lemma invB_resync C s p s' r : cnt_pos C -> InvA C s -> InvB C s -> resync VF C s p = Some (s', r) -> InvB C s'.
 Proof.
-  intros NP I L B H. apply step_cases in H. destruct H as [H|[p [n [s1 [_ [[_ [H1 H2]]|[W _]]]]]]].
-  - eapply invB_step1; eauto.
-  - (* the repaired __init__: the file disappears, then Start *)
-    assert (I0 : InvA C (sweep VF C s fresh_proc)) by (apply invA_sweep; auto).
-    assert (L0 : InvL (sweep VF C s fresh_proc)) by (apply (invL_same_jobs s); auto; apply sweep_jobs).
-    assert (B0 : InvB C (sweep VF C s fresh_proc)) by (apply invB_sweep; auto).
-    assert (I1 : InvA C s1) by (apply (invA_ghost C _ n s1 L0 I0 H1)).
-    assert (B1 : InvB C s1) by (apply (invB_ghost C _ n s1 NP I0 B0 H1)).
-    apply (invB_step1 C s1 _ s' r NP I1 B1 H2).
-  - discriminate.
+  intros NP I B H. unfold resync in H.
+  assert (I0 := invA_sweep VF C s (s_procs s p) I). assert (B0 := invB_sweep C s (s_procs s p) NP I B).
+  set (s0 := sweep VF C s (s_procs s p)) in *.
+  open_guard H. split_and G. apply lock_free_None in G1. inversion H; subst; clear H.
+  assert (PG := good_all C s0 I0 p).
+  destruct (recount_facts C s0 (s_procs s0 p) I0 G0 PG) as [R1 [R2 [R3 R4]]].
+  assert (RG := recount_good C s0 (s_procs s0 p) I0 G0 PG).
+  assert (RO : p_obs (recount C s0 (s_procs s0 p)) = p_obs (s_procs s0 p)) by reflexivity.
+  assert (RE : p_evq (recount C s0 (s_procs s0 p)) = p_evq (s_procs s0 p)) by reflexivity.
+  assert (RW : p_wat (recount C s0 (s_procs s0 p)) = p_wat (s_procs s0 p) ++ new_names C s0 (s_procs s0 p)) by reflexivity.
+  assert (AV : p_avail (recount C s0 (s_procs s0 p)) <= c_total C).
+  { rewrite R4. assert (0 <= cache_sum C (recount C s0 (s_procs s0 p))) by (apply cache_sum_nonneg; auto). lia. }
+  remember (recount C s0 (s_procs s0 p)) as pr eqn:EPR. clear EPR.
+  assert (WP : forall k, p_cache pr k <> None -> s_disk s0 k <> Absent ->
+     In k (p_wat pr) \/ (j_orph (s_jobs s0 k) = false /\ c_owner C k = p) \/ In (EDeleted k) (p_evq pr)).
+  { intros k HC HD. rewrite RW, RE. destruct (R3 k HC) as [E|E].
+    - destruct (b_watch _ _ B0 p k G E HD) as [W|[W|W]]; auto. left. apply in_app_l; auto.
+    - left. apply in_or_app; auto. }
+  match goal with |- InvB C (mkS _ _ _ ?J) => set (jobs' := J) end.
+  assert (JO : forall j, j_orph (jobs' j) = j_orph (s_jobs s0 j)).
+  { intros j. unfold jobs'. match goal with |- context[if ?b then _ else _] => destruct b end; reflexivity. }
+  assert (JP : forall j, j_ph (jobs' j) = j_ph (s_jobs s0 j)).
+  { intros j. unfold jobs'. match goal with |- context[if ?b then _ else _] => destruct b end; reflexivity. }
+  namedB.
+  - cq q p; [apply R4|]. apply (b_avail _ _ B0); auto.
+  - cq q p; [rewrite RO|]; apply (b_obs _ _ B0); auto.
+  - cq q p.
+    + left. apply (R1 k HC).
+    + apply (b_known _ _ B0); auto.
+  - rewrite JO. cq q p.
+    + apply WP; auto.
+    + apply (b_watch _ _ B0); auto.
+  - rewrite JP in HP. rewrite JO in HO.
+    destruct (Nat.eq_dec (c_owner C j0) p) as [E|E].
+    + subst p. rewrite upd_same. left.
+      unfold jobs' in HK. rewrite Nat.eqb_refl, HP, HO in HK. simpl in HK. lia.
+    + rewrite upd_other in * by auto. unfold jobs' in HK.
+      destruct (Nat.eqb_spec (c_owner C j0) p); [congruence|]. simpl in HK. apply (b_wait _ _ B0); auto.
+  - unfold jobs' in HK. match type of HK with context[if ?b then _ else _] => destruct b end; simpl in HK; [lia|].
+    apply (b_ok _ _ B0); auto.
 Qed.
+
+Lemma invB_dlock_none C s p i :
+  cnt_pos C -> InvA C s -> InvB C s -> p_alive (s_procs s p) = true ->
+  (forall k, EDeleted k = nth i (p_evq (s_procs s p)) (ECreated 0) -> p_cache (s_procs s p) k = None) ->
+  InvB C (mkS (s_lock s) (s_disk s)
+          (upd (s_procs s) p (mkProc (p_alive (s_procs s p)) (p_avail (s_procs s p)) (p_cache (s_procs s p)) (p_obs (s_procs s p))
+                                     (remove_nth i (p_evq (s_procs s p))) (p_wat (s_procs s p))))
+          (notify C p (p_avail (s_procs s p)) (s_jobs s))).
+Proof.
+  intros NP I B A ND.
+  assert (AV := avail_le_total C s p NP I B A).
+  assert (KEEP : forall k, p_cache (s_procs s p) k <> None -> In (EDeleted k) (p_evq (s_procs s p)) ->
+                 In (EDeleted k) (remove_nth i (p_evq (s_procs s p)))).
+  { intros k HC HI. destruct (nth_error (p_evq (s_procs s p)) i) as [e|] eqn:NTH.
+    - eapply remove_nth_In; eauto. intro E. apply HC. apply ND. rewrite (nth_error_nth _ _ _ NTH). auto.
+    - assert (LEN : (length (p_evq (s_procs s p)) <= i)%nat) by (apply nth_error_None; auto).
+      rewrite remove_nth_beyond; auto. }
+  namedB.
+  - cq q p; simpl in *; apply (b_avail _ _ B); auto.
+  - cq q p; simpl in *; apply (b_obs _ _ B); auto.
+  - cq q p; simpl in *; [|apply (b_known _ _ B); auto].
+    destruct (b_known _ _ B p k HA HC) as [K|K]; auto.
+  - rewrite notify_orph. cq q p; simpl in *; [|apply (b_watch _ _ B); auto].
+    destruct (b_watch _ _ B p k HA HC HD) as [W|[W|W]]; auto.
+  - rewrite notify_ph in HP. rewrite notify_orph in HO.
+    destruct (Nat.eq_dec (c_owner C j0) p) as [E|E].
+    + rewrite E, upd_same. simpl. left. apply (notify_wait C p (p_avail (s_procs s p)) (s_jobs s) j0); auto.
+    + rewrite upd_other in * by auto. rewrite notify_other in HK by auto. apply (b_wait _ _ B); auto.
+  - apply notify_ok in HK. destruct HK as [HK|HK]; [apply (b_ok _ _ B); auto|lia].
+Qed.
+
+Lemma invB_micro C s s' : cnt_pos C -> micro VF C s s' -> InvA C s -> InvB C s -> InvB C s'.
+Proof.
+  intros NP M I B. destruct M.
+  - destruct (dlock_cases VF C s p i s' r H) as [H'|[A [-> ND]]]; [eapply invB_core; eauto|].
+    eapply invB_dlock_none; eauto.
+  - eapply invB_core; eauto.
+  - apply invB_sweep; auto.
+  - eapply invB_ghost; eauto.
+  - discriminate.
+  - eapply invB_resync; eauto.
+Qed.
+Lemma invB_micros C s s' : cnt_pos C -> micros VF C s s' -> InvA C s /\ InvL s -> InvB C s -> InvB C s'.
+Proof.
+  intros NP M. induction M; auto. intros X B. apply IHM; [apply (invAL_micro VF C s s1 eq_refl H X)|].
+  eapply invB_micro; eauto. apply X.
+Qed.
+Lemma invB_step C s l s' r : cnt_pos C -> InvA C s -> InvL s -> InvB C s -> step VF C s l = Some (s', r) -> InvB C s'.
+Proof. intros NP I L B H. apply (invB_micros C s s' NP (step_micros VF C s l s' r H) (conj I L) B). Qed.
 
 (* ====== part E: theorems *)
 Opaque recount notify emit parsable.
@@ -2232,6 +2414,22 @@ Proof. split; [apply final_reachable; vm_compute; reflexivity|vm_compute; reflex
 Example ex_resubmit :
   j_ph (s_jobs (final VF C4 [Start 0; Acquire 0 0; WriteF 0; Launch 0; JobEnds 0 1; Release 0 0; Resubmit 0 0; Acquire 0 0]%nat) 0) = Creating.
 Proof. vm_compute. reflexivity. Qed.
+
+(* StartMid, DeliverRace: reachable states that use them (two processes) *)
+Example ex_startmid :
+  reachable VF C1 (final VF C1 [Start 0; StartMid 1 0 0]%nat) /\
+  s_disk (final VF C1 [Start 0; StartMid 1 0 0]%nat) 0 = Written 1 /\
+  p_cache (s_procs (final VF C1 [Start 0; StartMid 1 0 0]%nat) 1) 0 = Some 1 /\
+  p_avail (s_procs (final VF C1 [Start 0; StartMid 1 0 0]%nat) 1) = 0 /\
+  j_ok (s_jobs (final VF C1 [Start 0; StartMid 1 0 0]%nat) 1) = false.
+Proof. split; [apply final_reachable; vm_compute; reflexivity|]. repeat split; vm_compute; reflexivity. Qed.
+
+Example ex_deliverrace :
+  let tr := [Start 0; Start 1; Acquire 0 0; WriteF 0; Deliver 1 0; Launch 0; JobEnds 0 0; Release 0 0;
+             Deliver 1 0; DeliverRace 1 0 false 1]%nat in
+  reachable VF C1 (final VF C1 tr) /\ j_ph (s_jobs (final VF C1 tr) 1) = Holding /\
+  p_obs (s_procs (final VF C1 tr) 1) = true /\ p_avail (s_procs (final VF C1 tr) 1) = 0.
+Proof. split; [apply final_reachable; vm_compute; reflexivity|]. repeat split; vm_compute; reflexivity. Qed.
 
 (* capacity_inproc *)
 Definition pcnt := fun j : nat => nth j [1; 2] 1.
